@@ -44,6 +44,16 @@ def make_alignment_tuple(bam_index, alignment):
     return alignment.reference_start, alignment.reference_end, bam_index, alignment
 
 
+def skip_records_without_reference_span(alignment_iterator):
+    # fetch() also returns records that carry a reference name and a position but no alignment: an unmapped read
+    # placed at the position of its mapped mate (SAM convention) or a record without CIGAR. pysam reports
+    # reference_end = None for them; they cover no reference base and are no alignments
+    # (unmapped reads are counted via the index statistics in count_unaligned_reads)
+    for alignment in alignment_iterator:
+        if alignment.reference_end is not None:
+            yield alignment
+
+
 class BAMOnlineMerger:
     # single interator for several bam files
     def __init__(self, bam_pairs, chr_id, start, end, multiple_iterators=False):
@@ -56,8 +66,9 @@ class BAMOnlineMerger:
         self.start = start
         self.end = end
         # fetch uses 0-based semi-closed interval
-        self.alignment_iterators = [bp[0].fetch(self.chr_id, self.start, self.end + 1,
-                                                multiple_iterators=self.multiple_iterators) for bp in self.bam_pairs]
+        self.alignment_iterators = [skip_records_without_reference_span(
+            bp[0].fetch(self.chr_id, self.start, self.end + 1, multiple_iterators=self.multiple_iterators))
+            for bp in self.bam_pairs]
         self.current_elements = PriorityQueue(len(self.alignment_iterators))
         for i, it in enumerate(self.alignment_iterators):
             try:
